@@ -63,6 +63,13 @@ CHECKS.update({
  'C14': dict(level='model_checking', technique='exhaustive operation-sequence enumeration on the real memdb against a sorted-map model, plus stateless DFS over schedules at statement granularity (vrewrite -stmt) of one writer against readers',
    text='Every sequence to the depth over Put (3 keys x 3 value lengths) / Delete / Reset; after each Len, Size, Get/Contains/Find on probes and, at the deepest levels, every movement sequence on 27 ranges. Concurrent: scheduling points before every statement of package memdb; a writer (overwrite changing the value length, delete) against 1-2 readers under every schedule within the deviation bound; readers see strictly monotone keys and only pairs stored at some time.',
    note='Concurrent part deviation-bounded (3 quick / 5 thorough on single-reader drivers).', design='4/C14'),
+
+ 'C17': dict(level='exploration', technique='stateless DFS over schedules (deviation bounding; atomics are scheduling points) on the real cache.Cache + LRU with instrumented values',
+   text='2-3 goroutines issue Get/Release, Get/hold, Delete with callback, Evict, EvictNS, EvictAll, SetCapacity, Close (forced or not) on colliding keys, also across a map grow; under every schedule within the bound: constructors never run while a value of the key is live, handles never carry a finalised value, values are finalised exactly once and only with no outstanding handle (unless force-closed), delete callbacks run once and never with a handle out, retained charge fits the capacity when no handle is out. Deadlocks inside the cache are counted but belong to C09.',
+   note='Deviation bound 3-5 quick / 5-8 thorough.', design='4/C17'),
+ 'C19': dict(level='fault_enumeration', technique='explicit-state BFS over DB operation sequences; per settled closed state enumeration of manifest-loss/truncation/garbage variants and single-byte table damage, Recover by the real code, model comparison + LSM invariants',
+   text='Every state to the depth: manifest and CURRENT removed, CURRENT removed, manifest cut at every record boundary -1/0/+1 and inside headers, manifest garbage -> Recover must give exactly the model contents, a well-formed LSM tree, a usable DB that reopens with Open. With the manifest gone, one byte per 16-byte stretch of each table data area (and all first blocks together) altered -> Recover succeeds, keys outside the damaged table read exactly as the model, others only values once written.',
+   note='Settled cleanly closed states; per-block clause checked at table granularity.', design='4/C19'),
 })
 NA = {}
 
